@@ -350,6 +350,20 @@ func rewriteFile(rel string, src []byte) ([]byte, counts, bool, error) {
 			if st.Else != nil {
 				st.Else = walkStmt(st.Else)
 			}
+		case *ast.SendStmt:
+			// a plain (blocking) channel send in proxy code: under the cooperative harness nobody else runs while the event loop
+			// is blocked, so a send that cannot complete at once is reported (the loop thread must never block) instead of hanging
+			if !strings.HasPrefix(rel, "core/pkg/redis/") {
+				c["send-guard"]++
+				usesVsys = true
+				return &ast.SelectStmt{Body: &ast.BlockStmt{List: []ast.Stmt{
+					&ast.CommClause{Comm: st},
+					&ast.CommClause{Comm: nil, Body: []ast.Stmt{&ast.ExprStmt{X: &ast.CallExpr{
+						Fun:  &ast.SelectorExpr{X: ast.NewIdent(vsysName), Sel: ast.NewIdent("WouldBlock")},
+						Args: []ast.Expr{&ast.BasicLit{Kind: token.STRING, Value: strconv.Quote(rel)}}}}}},
+				}}}
+			}
+			return st
 		case *ast.ForStmt:
 			walkFuncLits(st.Init)
 			walkFuncLits(st.Cond)
